@@ -4,7 +4,15 @@ Runtime monitor over the public API (ASan build): every database form is instant
 allows and in the mode it excludes; each case is (1) validated directly (InstAPI::validate), (2) emitted with
 strict validation, (3) emitted without validation. Near-miss mutations of every form compare the validator's and the
 encoder's verdicts. The vendored list of forms accepted by the pinned release catches forms that silently stop being
-accepted. Name round trip over all instruction ids of x86, x64 and AArch64."""
+accepted. Name round trip over all instruction ids of x86, x64 and AArch64.
+
+Round 11: (a) the whole C01 operand sweep (extended registers, every addressing form, segments, boundary immediates, masks,
+options, implicit operands omitted) is emitted with validation on and off: a case that only validation refuses although the
+bytes produced without it satisfy the database rule is `validation-refuses-encodable`; (b) the vendored key carries the
+instantiation (reg / mem / reg-k / ... / impl / +lock / +xacquire / +xrelease / +rep / +repne), so losing only the memory
+alternative, the implicit-omitted shape or a prefix capability is noticed; (c) memory-instantiation mutations (size one
+class off, illegal / wrong broadcast, immediate past the field, segment 7); (d) the same cases appended to a Builder and to a
+Compiler (virtual registers) with kValidateIntermediate must get the validator's verdict."""
 import collections
 import json
 import multiprocessing
@@ -97,12 +105,81 @@ def mutations(gen, form, mode, base_ops, rng):
     return out
 
 
+MEM_LADDER = [1, 2, 4, 8, 16, 32, 64]
+MEM_MUT_TAGS = ("mem-size-up", "mem-size-down", "bcst-illegal", "bcst-wrong-n", "imm-oob", "seg7")
+UNIMPLEMENTED_EXT = {"AVX10_2", "APX_F"}   # this release encodes only the VEX siblings of their EVEX forms
+
+
+def matched_form(c, by_name, raw, mode):
+    """the database form whose encoding rule the bytes satisfy (xdec.check said ok), or None"""
+    for f, opmap in xdec.candidates(c, by_name, mode):
+        try:
+            xdec.match_form(c, f, opmap, raw, mode)
+            return f
+        except (xdec.Mismatch, KeyError, ValueError, IndexError, TypeError):
+            continue
+    return None
+
+
+def mem_mutations(form, mode, base_ops):
+    """near-miss mutations of the memory instantiation: memory operand one size class off, broadcast where the form has none
+    or with the wrong factor, immediate one past its field, segment id 7"""
+    out = []
+    ops = list(base_ops)
+    for i, o in enumerate(form["operands"]):
+        if i >= len(ops):
+            break
+        if ops[i][0] == "M":
+            m = ops[i][1]
+            if m["size"] in MEM_LADDER:
+                k = MEM_LADDER.index(m["size"])
+                for d, tag in ((1, "mem-size-up"), (-1, "mem-size-down")):
+                    if 0 <= k + d < len(MEM_LADDER):
+                        mm = list(ops)
+                        mm[i] = ("M", dict(m, size=MEM_LADDER[k + d]))
+                        out.append((tag, mm, 0, None))
+            if (o.get("bcstSize") or -1) > 0 and form.get("broadcast"):
+                nb = {2: 1, 4: 2, 8: 3, 16: 4, 32: 5, 64: 6}.get(o["memSize"] // o["bcstSize"])
+                if nb:
+                    mm = list(ops)
+                    mm[i] = ("M", dict(m, bcst=nb + 1 if nb < 6 else nb - 1, size=o["bcstSize"] // 8))
+                    out.append(("bcst-wrong-n", mm, 0, None))
+            else:
+                mm = list(ops)
+                mm[i] = ("M", dict(m, bcst=2, size=4))
+                out.append(("bcst-illegal", mm, 0, None))
+            mm = list(ops)
+            mm[i] = ("M", dict(m, seg=7))
+            out.append(("seg7", mm, 0, None))
+        elif ops[i][0] == "I" and o["imm"] and o["imm"] < 64 and o["data"] != "1":
+            mm = list(ops)
+            mm[i] = ("I", 1 << o["imm"])
+            out.append(("imm-oob", mm, 0, None))
+    return out
+
+
+# C01 variants whose operands are valid by construction (everything else is generated to be refused, or to probe leniency)
+IMPLICIT_ADDRESS = ("monitor", "monitorx", "umonitor", "clzero", "invlpga", "invlpgb", "vmload", "vmsave", "vmrun", "maskmovq", "maskmovdqu",
+                    "vmaskmovdqu", "xlatb")
+
+
+def valid_by_construction(variant, case=None):
+    v = variant
+    if case is not None and v == "rex" and any(op[0] == "R" and op[1] == "gp8hi" for op in case["ops"]):
+        return False   # AH..BH cannot be addressed under a REX prefix: forcing one contradicts the operand
+    if v.endswith(("-illegal", "-oob")) or v in ("bcst-wrong", "z-without-k", "mem-nosize"):
+        return False
+    if v.startswith("mem-asz-") and v[8:] in ("b32i64", "b64i32", "b16i32", "b32i16", "b16v"):
+        return False
+    return True
+
+
 def kind_tuple(form):
     return tuple(o["data"] for o in form["operands"])
 
 
 def worker(arg):
-    shard, nshards, seed, nmut, exe = arg
+    shard, nshards, seed, nmut, exe, sweep_budget, scale = arg
     forms = isadb.x86_forms()
     by_name = collections.defaultdict(list)
     for f in forms:
@@ -158,6 +235,34 @@ def worker(arg):
                     for tag, opts, extra in deco:
                         cases.append(gen.new_case(f, mode, list(ops), "form-" + tag, opts, extra))
                         meta.append(("form", fi, mode, ("mem-" if want_mem else "reg-") + tag))
+                    # lock / xacquire / xrelease (memory destination) and rep / repne the database gives the form
+                    pf = f.get("prefixes") or {}
+                    has_mem = any(op[0] == "M" for op in ops)
+                    if has_mem and (want_mem or not any(o["reg"] and o["mem"] for o in f["operands"])):
+                        lock = pf.get("lock") or pf.get("ilock")
+                        for name, bit in (("lock", G.OPT_LOCK), ("xacquire", G.OPT_XACQUIRE), ("xrelease", G.OPT_XRELEASE)):
+                            if (lock if name == "lock" else pf.get(name)):
+                                o2 = bit | (G.OPT_LOCK if name != "lock" and pf.get("lock") else 0)
+                                cases.append(gen.new_case(f, mode, list(ops), "form-" + name, o2, None))
+                                meta.append(("form", fi, mode, "+" + name))
+                    if not want_mem:
+                        for name, bit in (("rep", G.OPT_REP), ("repne", G.OPT_REPNE)):
+                            if pf.get(name):
+                                cases.append(gen.new_case(f, mode, list(ops), "form-" + name, bit, None))
+                                meta.append(("form", fi, mode, "+" + name))
+                    # the call shape of the typed API: implicit operands omitted
+                    imp = f.get("implicit") or 0
+                    # (forms of extensions this release does not implement are accepted only when the shortened operand list
+                    # happens to be another, legacy form - e.g. APX `rcr r8,r8/m8,<1>` without the 1 is `rcr r8,cl` iff the
+                    # random register is cl: not a stable fact about the form)
+                    if imp and not unimplemented_ext:
+                        kept = [op for i, op in enumerate(ops) if not (imp >> i) & 1]
+                        cases.append(gen.new_case(f, mode, kept, "form-impl"))
+                        meta.append(("form", fi, mode, "impl-mem" if want_mem else "impl"))
+                    if want_mem or not any(o["reg"] and o["mem"] for o in f["operands"]):
+                        for tag, mops, opts, extra in mem_mutations(f, mode, ops):
+                            cases.append(gen.new_case(f, mode, mops, tag, opts, extra))
+                            meta.append(("mut", fi, mode, tag))
                     if not want_mem:
                         muts = mutations(gen, f, mode, ops, rng)
                         if nmut and len(muts) > nmut:
@@ -178,7 +283,10 @@ def worker(arg):
     runs = {}
     # "shared": the same cases through ONE assembler object that is detached and re-attached whenever the mode changes
     for label, extra in (("on", ["--validate", "1", "--api-validate", "1"]), ("off", ["--validate", "0"]),
-                         ("shared", ["--validate", "1", "--shared-emitter", "1"])):
+                         ("shared", ["--validate", "1", "--shared-emitter", "1"]),
+                         # the same cases appended to a Builder (physical registers) and to a Compiler (virtual registers) whose
+                         # kValidateIntermediate hook calls the validator with the real operand count / kEnableVirtRegs
+                         ("builder", ["--validate", "1", "--emitter", "builder"]), ("compiler", ["--validate", "1", "--emitter", "compiler"])):
         rc, out, err = c01._emit(exe, lines, extra)
         rep = common.sanitizer_report(err)
         if rc != 0 or rep:
@@ -191,10 +299,20 @@ def worker(arg):
     accepted = []
     distinct = set()
     samples = []
-    for c, (kind, fi, mode, tag), on, off, sh in zip(cases, meta, runs["on"], runs["off"], runs["shared"]):
+    for c, (kind, fi, mode, tag), on, off, sh, bld, cmp_ in zip(cases, meta, runs["on"], runs["off"], runs["shared"], runs["builder"], runs["compiler"]):
         line = G.case_line(c)
         f = forms[fi]
         v, e_on, e_off = on["v"], on["err"], off["err"]
+        if on.get("iid", 1) != 0:
+            stats["intermediate_builder_compared"] += 1
+            if (bld["err"] == 0) != (v == 0) and bld["err"] != OOM:
+                viol.append(("builder-validation-differs:%s:%s" % (f["name"], tag if kind == "mut" else kind),
+                             "InstAPI::validate=%d but a Builder with kValidateIntermediate returns %d for the same instruction: %s" % (v, bld["err"], line), line))
+            if kind == "form" and v == 0:
+                stats["intermediate_compiler_virtual_registers_compared"] += 1
+                if cmp_["err"] not in (0, OOM):
+                    viol.append(("compiler-validation-refuses-form:%s:%s" % (f["name"], tag),
+                                 "InstAPI::validate accepts the form but a Compiler with kValidateIntermediate refuses it (error %d) when its GP/vector/mask/MMX registers are virtual: %s" % (cmp_["err"], line), line))
         if sh["err"] != e_on or sh["bytes"] != on["bytes"]:
             viol.append(("validation-depends-on-emitter-history:%d-bit" % mode,
                          "an assembler that was attached to the other mode before gives error %d / bytes %s, a dedicated %d-bit assembler error %d / bytes %s: %s" %
@@ -206,8 +324,11 @@ def worker(arg):
         distinct.add((kind, fi if kind != "mut" else (fi, tag), mode))
         if e_on == 0 and v != 0:
             viol.append(("validator-rejects-but-validating-assembler-accepts:%s" % f["name"], "InstAPI::validate=%d but emit with strict validation succeeded: %s" % (v, line), line))
-        if v == 0 and e_on not in (0, OOM):
-            viol.append(("validator-admits-encoder-refuses:%s:%s" % (f["name"], tag if kind == "mut" else kind),
+        if v == 0 and e_on not in (0, OOM) and kind == "mut" and tag in MEM_MUT_TAGS:
+            viol.append(("validator-admits-encoder-refuses:mut-%s:%s" % (tag, f["name"]),
+                         "InstAPI::validate accepts but the assembler (validation on) fails with error %d: %s" % (e_on, line), line))
+        elif v == 0 and e_on not in (0, OOM):
+            viol.append(("validator-admits-encoder-refuses:%s:%s" % (f["name"], tag if kind == "mut" else "form-impl" if tag.startswith("impl") else kind),
                          "InstAPI::validate accepts but the assembler (validation on) fails with error %d: %s" % (e_on, line), line))
         if e_on == 0 and e_off == 0 and on["bytes"] != off["bytes"]:
             viol.append(("validation-changes-bytes:%s" % f["name"], "bytes differ with validation on (%s) and off (%s): %s" % (on["bytes"], off["bytes"], line), line))
@@ -215,7 +336,7 @@ def worker(arg):
             viol.append(("validation-enables-encoding:%s" % f["name"], "emit fails (%d) without validation but succeeds with it: %s" % (e_off, line), line))
         if kind == "form":
             if e_on == 0:
-                accepted.append((form_key(f) + ("" if tag in ("reg", "mem") else "|+" + tag.split("-")[-1]), mode, tag))
+                accepted.append((form_key(f) + "|" + tag, mode, tag))
                 stats["form_accepted"] += 1
                 if e_off != 0:
                     pass
@@ -228,7 +349,59 @@ def worker(arg):
                 stats["excluded_refused"] += 1
         else:
             stats["mut_" + ("accepted" if e_on == 0 else "refused")] += 1
-    return dict(viol=viol, stats=dict(stats), n=len(cases), accepted=accepted, distinct=[str(d) for d in distinct], samples=samples)
+            if tag in MEM_MUT_TAGS:
+                stats["memmut_%s_%s" % (tag, "accepted" if e_on == 0 else "refused")] += 1
+    # ---- the full operand sweep of C01 (extended registers, every addressing form, segments, boundary immediates, masks,
+    # options, implicit operands omitted ...) with validation on and off: an instruction the non-validating assembler encodes
+    # correctly (database-rule decoder says ok) must not be refused because validation is switched on
+    sweep = c01.generate(shard, nshards, seed, sweep_budget, False, scale)
+    slines = [G.case_line(c) for c in sweep]
+    sruns = {}
+    for label, extra in (("on", ["--validate", "1"]), ("off", ["--validate", "0"])):
+        rc, out, err = c01._emit(exe, slines, extra)
+        rep = common.sanitizer_report(err)
+        if rc != 0 or rep:
+            return dict(crash=dict(rc=rc, rep=rep, label="sweep-" + label), viol=[], stats={}, n=len(cases), accepted=[], distinct=[], samples=[])
+        sruns[label] = [json.loads(l) for l in out.decode().splitlines()]
+        if len(sruns[label]) != len(sweep):
+            raise common.HarnessError("driver record count mismatch (sweep)")
+    for c, on, off in zip(sweep, sruns["on"], sruns["off"]):
+        mode = 64 if c["arch"] == "x64" else 32
+        stats["sweep_cases"] += 1
+        if on["err"] == 0 and off["err"] == 0:
+            stats["sweep_both_accept"] += 1
+            if on["bytes"] != off["bytes"]:
+                line = G.case_line(c)
+                viol.append(("validation-changes-bytes:%s" % c["name"], "bytes differ with validation on (%s) and off (%s): %s" % (on["bytes"], off["bytes"], line), line))
+        elif on["err"] == 0:
+            line = G.case_line(c)
+            viol.append(("validation-enables-encoding:%s" % c["name"], "emit fails (%d) without validation but succeeds with it: %s" % (off["err"], line), line))
+        elif off["err"] == 0 and off["bytes"]:
+            stats["sweep_refused_only_when_validating"] += 1
+            if not valid_by_construction(c["variant"], c):
+                continue
+            if c["name"] in IMPLICIT_ADDRESS or c01.gap_class(c, by_name, mode) == "validator-gap:implicit-memory-operand-not-checked":
+                # the memory operand of these forms is implicit (fixed register): the generic addressing styles are not
+                # instances of the form and the database-rule decoder has no field to judge them by
+                stats["sweep_diff_implicit_memory_operand"] += 1
+                continue
+            stats["sweep_refused_only_when_validating_valid_operands"] += 1
+            v, d = xdec.check(c, by_name, bytes.fromhex(off["bytes"]), mode)
+            stats["sweep_diff_xdec_" + v] += 1
+            mf = matched_form(c, by_name, bytes.fromhex(off["bytes"]), mode) if v == "ok" else None
+            if mf is not None and set(mf.get("ext") or {}) & UNIMPLEMENTED_EXT:
+                # not one of "the forms AsmJit implements": the lenient encoder happens to produce the EVEX form of an
+                # extension whose VEX sibling is the only one in AsmJit's tables
+                stats["sweep_diff_form_of_unimplemented_extension"] += 1
+            elif v == "ok":
+                line = G.case_line(c)
+                distinct.add(("sweep", c["form"], c["variant"].split("-")[0], mode))
+                viol.append(("validation-refuses-encodable:%s:%s" % (c["name"], c["variant"].split("-")[0]),
+                             "strict validation refuses (error %d) what the assembler encodes correctly without it (%s, database rule %s): %s"
+                             % (on["err"], off["bytes"], d, line), line))
+        else:
+            stats["sweep_both_refuse"] += 1
+    return dict(viol=viol, stats=dict(stats), n=len(cases) + len(sweep), accepted=accepted, distinct=[str(d) for d in distinct], samples=samples)
 
 
 VENDOR_A64 = os.path.join(os.path.dirname(VENDOR), "implemented_a64.json")
@@ -281,7 +454,8 @@ def run(tier, args):
     isadb.x86_forms()
     nshards = 16 if tier == "quick" else 48
     nmut = 6 if tier == "quick" else 0
-    jobs = [(s, nshards, chk.seed, nmut, exe) for s in range(nshards)]
+    sweep_budget = max(2, int(12 * args.scale)) if tier == "quick" else 40
+    jobs = [(s, nshards, chk.seed, nmut, exe, sweep_budget, args.scale) for s in range(nshards)]
     with multiprocessing.Pool(16) as pool:
         outs = pool.map(worker, jobs, chunksize=1)
     stats = collections.Counter()
@@ -290,6 +464,7 @@ def run(tier, args):
     distinct = set()
     samples = []
     n = 0
+    by_tag = collections.Counter()
     for o in outs:
         if o.get("crash"):
             chk.violation("sanitizer-or-crash:%s" % ((o["crash"]["rep"] or {}).get("kind", "rc=%s" % o["crash"]["rc"]))[:80], "driver crashed: %s" % o["crash"], o["crash"])
@@ -299,10 +474,12 @@ def run(tier, args):
         distinct.update(o["distinct"])
         samples += o["samples"][:1]
         accepted.update((k, m) for k, m, t in o["accepted"])
+        for k, m, t in o["accepted"]:
+            by_tag[t] += 1
         for key, what, line in o["viol"]:
             byk.setdefault(key, []).append((what, line))
     # vendored list: forms accepted by the pinned release must still be accepted
-    if os.environ.get("VERIF_C13_WRITE_VENDOR"):
+    if os.environ.get("VERIF_C13_WRITE_VENDOR") in ("1", "x86"):
         os.makedirs(os.path.dirname(VENDOR), exist_ok=True)
         json.dump(sorted([list(x) for x in accepted]), open(VENDOR, "w"), indent=0)
     vend = set(tuple(x) for x in json.load(open(VENDOR))) if os.path.exists(VENDOR) else None
@@ -351,7 +528,7 @@ def run(tier, args):
     # AArch64 (no operand validator): the database forms the pinned release encodes must still be encoded. Fixed generator
     # seed, so that the vendored list is independent of VERIF_SEED; every valid ('ok') variant of every record counts.
     a64 = a64_accepted()
-    if os.environ.get("VERIF_C13_WRITE_VENDOR"):
+    if os.environ.get("VERIF_C13_WRITE_VENDOR") in ("1", "a64"):
         json.dump(sorted(a64["accepted"]), open(VENDOR_A64, "w"), indent=0)
     if not os.path.exists(VENDOR_A64):
         raise common.HarnessError("vendored implemented-form list missing: " + VENDOR_A64)
@@ -367,14 +544,31 @@ def run(tier, args):
     # typed emitter methods must emit the instruction they are named after
     from vlib import typedemit
     typed = typedemit.check(chk)
+    inter = {k[13:]: v for k, v in stats.items() if k.startswith("intermediate_")}
+    sweep = {k[6:]: v for k, v in stats.items() if k.startswith("sweep_")}
+    memmut = {k[7:]: v for k, v in stats.items() if k.startswith("memmut_")}
+    if not any(o.get("crash") for o in outs) and args.scale >= 0.5:
+        if not sweep.get("cases") or not sweep.get("both_accept"):
+            raise common.HarnessError("the validation on/off sweep observed nothing")
+        for t in ("impl", "+lock", "+rep", "+repne", "+xacquire", "+xrelease", "mem", "reg"):
+            if not by_tag[t]:
+                raise common.HarnessError("no accepted form case with tag '%s' was observed" % t)
+        if not memmut:
+            raise common.HarnessError("no memory-instantiation mutation was observed")
+        if not inter.get("builder_compared") or not inter.get("compiler_virtual_registers_compared"):
+            raise common.HarnessError("the Builder / Compiler validation hook observed nothing")
     chk.coverage.update({
+        "validation_on_off_over_the_c01_sweep": sweep,
+        "validate_intermediate_hook": inter,
+        "accepted_form_cases_by_instantiation": dict(by_tag),
+        "memory_instantiation_mutations": memmut,
         "typed_emitter_methods": typed,
         "a64_implemented_variants_vendored": len(vend64), "a64_implemented_variants_now": len(a64["accepted"]), "a64_valid_variants_tried": a64["tried"],
         "evaluations": n,
         "distinct_nontrivial": len(distinct),
         "rule": "one evaluation = one case validated directly and emitted with and without strict validation; distinct = (database form, mode) for form/excluded-mode cases and (database form, mutation kind, mode) for near-miss mutations; all are non-trivial (each compares three verdicts)",
         "samples": samples[:5],
-        "by_kind": {k: v for k, v in stats.items()},
+        "by_kind": {k: v for k, v in stats.items() if not k.startswith(("sweep_", "memmut_", "intermediate_"))},
         "implemented_forms_vendored": len(vend), "implemented_forms_now": len(accepted),
         "newly_accepted_forms": len(new), "newly_accepted_sample": [list(x) for x in new[:5]],
         "names_round_tripped": names,
@@ -382,5 +576,7 @@ def run(tier, args):
     chk.assumptions += [
         "'implemented' = accepted by the pinned release (vendor/implemented_x86.json, generated from this tree); AArch64 has no operand validator, so only its name round trip is judged here (encodings: C02)",
         "excluded mode is judged only for operand-kind tuples of a mnemonic that occur in no record valid for that mode",
+        "validation on/off sweep: only C01 variants whose operands are valid by construction are judged, the deciding oracle is vlib/xdec.py on the bytes emitted without validation; forms of extensions this release does not implement (AVX10.2/APX EVEX siblings) and implicit-address forms are not judged",
+        "Compiler run: GP/vector/mask/MMX registers are replaced by virtual registers (one per physical id), only forms InstAPI::validate accepts are compared",
     ]
     return chk.finish()
